@@ -284,6 +284,24 @@ impl Monitors {
                                 .map(|x| state_name(&x.state))
                                 .unwrap_or("gone");
                             self.count(&format!("pair.{st}.{kind}"), 1);
+                            // a task started from the backlog while it is being retracted and already
+                            // holds a reservation (redirect) - on the same worker ("dummy" redirect)?
+                            if let (UpdateLite::RunningPrefilled(_, rv), "retracting") = (u, st) {
+                                if let Some(r) = pc.redirects.iter().find(|r| conv::tid(r.0) == t) {
+                                    let src = pc.tasks.iter().find(|x| conv::tid(x.id) == t).and_then(|x| match &x.state {
+                                        TaskStateSnapshot::Retracting { worker_id } => Some(*worker_id),
+                                        _ => None,
+                                    });
+                                    if src == Some(r.1) {
+                                        self.count("redirect.backlog_start_on_redirect_target", 1);
+                                        if r.2.as_num() as u32 != *rv {
+                                            self.count("redirect.backlog_start_on_redirect_target.other_variant", 1);
+                                        }
+                                    } else {
+                                        self.count("redirect.backlog_start_while_redirected_elsewhere", 1);
+                                    }
+                                }
+                            }
                         }
                     }
                     if let (Some(pc), FromWorkerLite::RetractResponse(ids)) = (&prev_core, m) {
